@@ -65,7 +65,9 @@ WF_ALL = " and ".join("(" + v + ")" for v in list(WF.values()) + list(LAW.values
 DERIVE = {
     "$fst": "fst(" + c(0) + ") if " + N + " > 0 else None",
     "$succ": "succ(" + c(N + " - 1") + ") if " + N + " > 0 else None",
-    "$wf": "(" + " and ".join("(" + v + ")" for v in WF.values()) + ") if " + N + " > 0 else (self._firstbucket is None)",
+    # "the subtree is well formed" IS the conjunction of the wf_* postcondition clauses (and, for an
+    # empty node, "no first bucket")
+    "$wf": "@and_ensures:wf_*|implies(" + N + " == 0, self._firstbucket is None)",
 }
 NODE_MOD = ["self.$fst", "self.$succ", "self.$wf", "self._firstbucket", "list:self._data", "self._p_changed"]
 
@@ -114,6 +116,12 @@ C("_Tree._del#struct", cls=TREE, params={"key": "K"}, returns=DEL_RET,
                emptied="implies(" + N + " == 0, result[0] and self._firstbucket is old(succ(self)) and "
                        "old(fst(self))._next is old(succ(self)) and old(fst(self))._next is old(old(fst(self))._next))",
                one_less_or_same="len(self._data) == old(len(self._data)) or len(self._data) == old(len(self._data)) - 1",
+               # C04: whatever of the node's own serialised state changed (child list, a separator, the first
+               # bucket) is announced; so is the change of an embedded (oid-less, only) leaf
+               registered="changed(self) or (len(self._data) == old(len(self._data)) and self._firstbucket is old(self._firstbucket) and "
+                          "forall(0, " + N + ", lambda i: self._data[i] is old(self._data[i]) and self._data[i].key == old(self._data[i].key)))",
+               embedded_leaf_registered="implies(old(len(self._data)) == 1 and old(is_leaf(self._data[0].child)) and "
+                                        "old(self._data[0].child._p_oid) is None, changed(self))",
                subtree_ok="implies(" + N + " > 0, wfsub(self))"),        # = the conjunction of the wf_* clauses (derived $wf)
   raises={"KeyError": {"first_same": "fst(self) is old(fst(self)) and self._firstbucket is old(self._firstbucket)",
                        "same_children": "len(self._data) == old(len(self._data)) and "
